@@ -64,6 +64,8 @@ def main():
     cur = None
     if cfg.get("timedep_current"):
         cur = lambda t: {"source": 2.0 + np.sin(3 * t), "drain": -(2.0 + np.sin(3 * t))}
+    elif cfg.get("currents4"):
+        cur = dict(zip(["source", "drain", "top", "bottom"], cfg["currents4"]))
     elif cfg.get("current"):
         cur = {"source": cfg["current"], "drain": -cfg["current"]}
     out = cfg.get("out")
